@@ -7,6 +7,7 @@ import Mathlib.Order.Basic
 import Mathlib.Order.Lattice
 import Mathlib.Algebra.Order.Group.Int
 import Mathlib.Tactic.Linarith
+import Mathlib.Algebra.BigOperators.Group.List.Basic
 namespace Mahotas.C13
 open Mahotas
 
@@ -95,6 +96,34 @@ theorem foldl_wrap_add (dt : DT) (vs : List Int) (s : Int) :
     simp only [List.foldl_cons, List.sum_cons]
     rw [wrap_add_wrap, ih]
     congr 1; omega
+
+theorem foldl_add_comm_sum {α : Type} [AddCommMonoid α] (vs : List α) (s : α) :
+    vs.foldl (fun r a => a + r) s = s + vs.sum := by
+  induction vs generalizing s with
+  | nil => simp
+  | cons v vs ih =>
+    simp only [List.foldl_cons, List.sum_cons]
+    rw [ih, add_comm v s, add_assoc]
+
+theorem foldl_or_any (vs : List Int) (s : Int) (hs : s = 0 ∨ s = 1) :
+    vs.foldl (fun r a => if a ≠ 0 ∨ r ≠ 0 then (1 : Int) else 0) s =
+      if s ≠ 0 ∨ vs.any (· ≠ 0) then 1 else 0 := by
+  induction vs generalizing s with
+  | nil => rcases hs with h | h <;> simp [h]
+  | cons v vs ih =>
+    simp only [List.foldl_cons, List.any_cons]
+    by_cases hv : v ≠ 0
+    · rw [ih _ (by simp [hv])]
+      simp [hv]
+    · have hv' : v = 0 := by simpa using hv
+      subst hv'
+      rcases hs with h | h
+      · subst h
+        rw [ih _ (by simp)]
+        simp
+      · subst h
+        rw [ih _ (by simp)]
+        simp
 
 /-! ### maxima and minima over a linear order -/
 
